@@ -130,6 +130,11 @@ def rule_marking(ctx: Ctx) -> None:
     kinds = set()
     for bp in lp.body:
         thr_none = fact_where(bp, lambda k: k.startswith("none:get_label_threshold("))
+        thr_truthy = fact_where(bp, lambda k: k.startswith(("truthy:get_label_threshold(", "call:get_label_threshold(")))
+        if thr_none is None and thr_truthy is not None:
+            ctx.violate("C04-marking", "Ap._calculate_tp_fp", "threshold-tested-by-truthiness", "the per-label threshold is tested by truthiness: a threshold of exactly 0 (the loosest IoU threshold, the strictest distance) "
+                        "is treated as `no threshold for this label` and the result is skipped; the test must be `is None`", fi=fi, expected="matching_threshold_ is None", found="not matching_threshold_")
+            continue
         correct = fact_where(bp, lambda k: k.startswith(f"call:{rvar}.is_result_correct("))
         st = [e for e in bp.effects if e.kind == "store" and re.match(r"^(tp_list|fp_list)\[", strip_v(e.recv))]
         tag = f"thr_none={thr_none},correct={correct}"
